@@ -25,8 +25,8 @@ theorem enc_coherent (cid : Nat) (k : String) (r : Row) (h : r.tomb = r.value.is
 
 /-- `Add` / `AddRaw`: the upsert leaves a live row exactly as it is, whatever is being added. -/
 theorem sql_add_never_touches_a_live_row (ps : Env) (r : SRow) (hlive : r.tombstone = .int 0) :
-    Collection_add_INSERT_0.exec ps (some r) = { row := some r, affected := 0 } := by
-  simp [Collection_add_INSERT_0, Upsert.exec, E.eval, SRow.get, hlive, ofBool, SV.truthy, SV.same]
+    ups_cas_collection_exp_isJSON_key_revSeqNo_value__set_cas_exp_isJSON_revSeqNo_tombstone0_value_xattrsN__if_tombstoneNot0.exec ps (some r) = { row := some r, affected := 0 } := by
+  simp [ups_cas_collection_exp_isJSON_key_revSeqNo_value__set_cas_exp_isJSON_revSeqNo_tombstone0_value_xattrsN__if_tombstoneNot0, Upsert.exec, E.eval, SRow.get, hlive, ofBool, SV.truthy, SV.same]
 
 /-- `WriteCas` with `AddOnly` or CAS 0: the statement chosen (with or without the appended `AND cas=?`) leaves a live row as it is. -/
 theorem sql_wcas_insert_never_touches_a_live_row (o : WOpts) (cas : Nat) (wasTomb : Bool) (ps : Env) (r : SRow)
@@ -37,28 +37,28 @@ theorem sql_wcas_insert_never_touches_a_live_row (o : WOpts) (cas : Nat) (wasTom
   unfold wcasExec
   simp only [ha, hi', Bool.false_eq_true, if_false, if_true]
   split
-  · simp only [Collection_WriteCas_INSERT_0, Option.map, Upsert.exec, E.eval, SRow.get, hlive, ofBool, SV.same]
-    generalize (Collection_WriteCas_AND_0.eval ps r) = y
+  · simp only [ups_cas_collection_exp_isJSON_key_revSeqNo_tombstone_value__set_cas_exp_isJSON_revSeqNo_tombstone_value_xattrsN__if_tombstoneIs1, Option.map, Upsert.exec, E.eval, SRow.get, hlive, ofBool, SV.same]
+    generalize (frag_and_cas.eval ps r) = y
     cases y with
     | null => simp [SV.truthy]
     | int m => cases m <;> simp [SV.truthy]
     | text _ => simp [SV.truthy]
-  · simp [Collection_WriteCas_INSERT_0, Upsert.exec, E.eval, SRow.get, hlive, ofBool, SV.truthy, SV.same]
+  · simp [ups_cas_collection_exp_isJSON_key_revSeqNo_tombstone_value__set_cas_exp_isJSON_revSeqNo_tombstone_value_xattrsN__if_tombstoneIs1, Upsert.exec, E.eval, SRow.get, hlive, ofBool, SV.truthy, SV.same]
 
 /-! ### C02 -/
 
 /-- The regular (non-append, non-insert) `WriteCas` UPDATE applies to the addressed row exactly when its CAS is the one supplied. -/
 theorem sql_wcas_update_applies_iff_cas_current (cid : Nat) (k : String) (cas : Nat) (ps : Env) (r : Row)
     (hc : ps "c.id" = .int cid) (hk : ps "key" = .text k) (hcas : ps "cas" = .int cas) :
-    (Collection_WriteCas_UPDATE_1.exec ps (some (enc cid k r))).affected = (if r.cas = cas then 1 else 0) := by
+    (upd_cas_exp_isJSON_revSeqNo_tombstone_value_xattrs__by_cas_collection_key.exec ps (some (enc cid k r))).affected = (if r.cas = cas then 1 else 0) := by
   by_cases h : r.cas = cas <;>
-  simp [Collection_WriteCas_UPDATE_1, Update.exec, E.eval, SRow.get, enc, hc, hk, hcas, ofBool, SV.truthy, SV.same, h]
+  simp [upd_cas_exp_isJSON_revSeqNo_tombstone_value_xattrs__by_cas_collection_key, Update.exec, E.eval, SRow.get, enc, hc, hk, hcas, ofBool, SV.truthy, SV.same, h]
 
 /-- … and a row it does not apply to is left exactly as it was. -/
 theorem sql_wcas_update_stale_cas_changes_nothing (cid : Nat) (k : String) (cas : Nat) (ps : Env) (r : Row)
     (hc : ps "c.id" = .int cid) (hk : ps "key" = .text k) (hcas : ps "cas" = .int cas) (hne : r.cas ≠ cas) :
-    Collection_WriteCas_UPDATE_1.exec ps (some (enc cid k r)) = { row := some (enc cid k r), affected := 0 } := by
-  simp [Collection_WriteCas_UPDATE_1, Update.exec, E.eval, SRow.get, enc, hc, hk, hcas, ofBool, SV.truthy, SV.same, hne]
+    upd_cas_exp_isJSON_revSeqNo_tombstone_value_xattrs__by_cas_collection_key.exec ps (some (enc cid k r)) = { row := some (enc cid k r), affected := 0 } := by
+  simp [upd_cas_exp_isJSON_revSeqNo_tombstone_value_xattrs__by_cas_collection_key, Update.exec, E.eval, SRow.get, enc, hc, hk, hcas, ofBool, SV.truthy, SV.same, hne]
 
 /-! ### C05 -/
 
@@ -70,62 +70,62 @@ theorem update_applies (u : Update) (ps : Env) (r : SRow) (h : (u.cond.eval ps r
 /-- `Remove` / `Delete`: whatever the row was, the UPDATE makes it a coherent tombstone without expiry. -/
 theorem sql_remove_makes_a_tombstone (cid : Nat) (k : String) (ps : Env) (r : Row)
     (hc : ps "c.id" = .int cid) (hk : ps "key" = .text k) :
-    (Collection_remove_UPDATE_0.exec ps (some (enc cid k r))).affected = 1 ∧
-    ∀ r', (Collection_remove_UPDATE_0.exec ps (some (enc cid k r))).row = some r' →
+    (upd_cas_exp0_isJSON0_revSeqNo_tombstone1_valueN_xattrs__by_collection_key.exec ps (some (enc cid k r))).affected = 1 ∧
+    ∀ r', (upd_cas_exp0_isJSON0_revSeqNo_tombstone1_valueN_xattrs__by_collection_key.exec ps (some (enc cid k r))).row = some r' →
       coherent r' ∧ r'.value = .null ∧ r'.exp = .int 0 ∧ r'.isJSON = .int 0 := by
-  have h : (Collection_remove_UPDATE_0.cond.eval ps (enc cid k r)).truthy = true := by
-    simp [Collection_remove_UPDATE_0, E.eval, SRow.get, enc, hc, hk, ofBool, SV.same, SV.truthy]
+  have h : (upd_cas_exp0_isJSON0_revSeqNo_tombstone1_valueN_xattrs__by_collection_key.cond.eval ps (enc cid k r)).truthy = true := by
+    simp [upd_cas_exp0_isJSON0_revSeqNo_tombstone1_valueN_xattrs__by_collection_key, E.eval, SRow.get, enc, hc, hk, ofBool, SV.same, SV.truthy]
   rw [update_applies _ _ _ h]
   refine ⟨rfl, ?_⟩
   intro r' hr
   simp only [Option.some.injEq] at hr
   subst hr
-  simp [Collection_remove_UPDATE_0, applySets, SRow.set, E.eval, coherent]
+  simp [upd_cas_exp0_isJSON0_revSeqNo_tombstone1_valueN_xattrs__by_collection_key, applySets, SRow.set, E.eval, coherent]
 
 /-- `DeleteWithXattrs` likewise. -/
 theorem sql_delx_makes_a_tombstone (cid : Nat) (k : String) (ps : Env) (r : Row)
     (hc : ps "c.id" = .int cid) (hk : ps "key" = .text k) :
-    (Collection_DeleteWithXattrs_UPDATE_0.exec ps (some (enc cid k r))).affected = 1 ∧
-    ∀ r', (Collection_DeleteWithXattrs_UPDATE_0.exec ps (some (enc cid k r))).row = some r' →
+    (upd_cas_exp0_isJSON0_revSeqNo_tombstone1_valueN_xattrs__by_collection_key.exec ps (some (enc cid k r))).affected = 1 ∧
+    ∀ r', (upd_cas_exp0_isJSON0_revSeqNo_tombstone1_valueN_xattrs__by_collection_key.exec ps (some (enc cid k r))).row = some r' →
       coherent r' ∧ r'.value = .null ∧ r'.exp = .int 0 := by
-  have h : (Collection_DeleteWithXattrs_UPDATE_0.cond.eval ps (enc cid k r)).truthy = true := by
-    simp [Collection_DeleteWithXattrs_UPDATE_0, E.eval, SRow.get, enc, hc, hk, ofBool, SV.same, SV.truthy]
+  have h : (upd_cas_exp0_isJSON0_revSeqNo_tombstone1_valueN_xattrs__by_collection_key.cond.eval ps (enc cid k r)).truthy = true := by
+    simp [upd_cas_exp0_isJSON0_revSeqNo_tombstone1_valueN_xattrs__by_collection_key, E.eval, SRow.get, enc, hc, hk, ofBool, SV.same, SV.truthy]
   rw [update_applies _ _ _ h]
   refine ⟨rfl, ?_⟩
   intro r' hr
   simp only [Option.some.injEq] at hr
   subst hr
-  simp [Collection_DeleteWithXattrs_UPDATE_0, applySets, SRow.set, E.eval, coherent]
+  simp [upd_cas_exp0_isJSON0_revSeqNo_tombstone1_valueN_xattrs__by_collection_key, applySets, SRow.set, E.eval, coherent]
 
 /-- `Add` over a tombstone: the row becomes live and coherent, **without any of the tombstone's xattrs**, and its revision goes up by one. -/
 theorem sql_add_resurrects_cleanly (ps : Env) (r : SRow) (v : String) (n : Nat)
     (htomb : r.tombstone = .int 1) (hval : ps "val" = .text v) (hrev : r.revSeqNo = .int n) :
-    (Collection_add_INSERT_0.exec ps (some r)).affected = 1 ∧
-    ∀ r', (Collection_add_INSERT_0.exec ps (some r)).row = some r' →
+    (ups_cas_collection_exp_isJSON_key_revSeqNo_value__set_cas_exp_isJSON_revSeqNo_tombstone0_value_xattrsN__if_tombstoneNot0.exec ps (some r)).affected = 1 ∧
+    ∀ r', (ups_cas_collection_exp_isJSON_key_revSeqNo_value__set_cas_exp_isJSON_revSeqNo_tombstone0_value_xattrsN__if_tombstoneNot0.exec ps (some r)).row = some r' →
       coherent r' ∧ r'.xattrs = .null ∧ r'.revSeqNo = .int (n + 1) := by
-  have h : Collection_add_INSERT_0.exec ps (some r)
-      = { row := some (applySets ps r (Collection_add_INSERT_0.conflict.get!).1 r), affected := 1 } := by
-    simp [Collection_add_INSERT_0, Upsert.exec, E.eval, SRow.get, htomb, ofBool, SV.same, SV.truthy]
+  have h : ups_cas_collection_exp_isJSON_key_revSeqNo_value__set_cas_exp_isJSON_revSeqNo_tombstone0_value_xattrsN__if_tombstoneNot0.exec ps (some r)
+      = { row := some (applySets ps r (ups_cas_collection_exp_isJSON_key_revSeqNo_value__set_cas_exp_isJSON_revSeqNo_tombstone0_value_xattrsN__if_tombstoneNot0.conflict.get!).1 r), affected := 1 } := by
+    simp [ups_cas_collection_exp_isJSON_key_revSeqNo_value__set_cas_exp_isJSON_revSeqNo_tombstone0_value_xattrsN__if_tombstoneNot0, Upsert.exec, E.eval, SRow.get, htomb, ofBool, SV.same, SV.truthy]
   rw [h]
   refine ⟨rfl, ?_⟩
   intro r' hr
   simp only [Option.some.injEq] at hr
   subst hr
-  simp [Collection_add_INSERT_0, applySets, SRow.set, SRow.get, E.eval, coherent, hval, hrev]
+  simp [ups_cas_collection_exp_isJSON_key_revSeqNo_value__set_cas_exp_isJSON_revSeqNo_tombstone0_value_xattrsN__if_tombstoneNot0, applySets, SRow.set, SRow.get, E.eval, coherent, hval, hrev]
 
 /-- `_set` over any existing row: live, coherent (the statement sets `tombstone=0` next to a non-NULL body). -/
 theorem sql_set_makes_live (cid : Nat) (k : String) (ps : Env) (r : Row) (v : String)
     (hc : ps "c.id" = .int cid) (hk : ps "key" = .text k) (hval : ps "val" = .text v) :
-    (Collection__set_UPDATE_0.exec ps (some (enc cid k r))).affected = 1 ∧
-    ∀ r', (Collection__set_UPDATE_0.exec ps (some (enc cid k r))).row = some r' → coherent r' ∧ r'.value = .text v := by
-  have h : (Collection__set_UPDATE_0.cond.eval ps (enc cid k r)).truthy = true := by
-    simp [Collection__set_UPDATE_0, E.eval, SRow.get, enc, hc, hk, ofBool, SV.same, SV.truthy]
+    (upd_cas_exp_isJSON_revSeqNo_tombstone0_value_xattrs__by_collection_key.exec ps (some (enc cid k r))).affected = 1 ∧
+    ∀ r', (upd_cas_exp_isJSON_revSeqNo_tombstone0_value_xattrs__by_collection_key.exec ps (some (enc cid k r))).row = some r' → coherent r' ∧ r'.value = .text v := by
+  have h : (upd_cas_exp_isJSON_revSeqNo_tombstone0_value_xattrs__by_collection_key.cond.eval ps (enc cid k r)).truthy = true := by
+    simp [upd_cas_exp_isJSON_revSeqNo_tombstone0_value_xattrs__by_collection_key, E.eval, SRow.get, enc, hc, hk, ofBool, SV.same, SV.truthy]
   rw [update_applies _ _ _ h]
   refine ⟨rfl, ?_⟩
   intro r' hr
   simp only [Option.some.injEq] at hr
   subst hr
-  simp [Collection__set_UPDATE_0, applySets, SRow.set, E.eval, coherent, hval]
+  simp [upd_cas_exp_isJSON_revSeqNo_tombstone0_value_xattrs__by_collection_key, applySets, SRow.set, E.eval, coherent, hval]
 
 theorem update_row_cases (u : Update) (ps : Env) (r r' : SRow) (h : (u.exec ps (some r)).row = some r') :
     r' = r ∨ ((u.cond.eval ps r).truthy = true ∧ r' = applySets ps r u.sets r) := by
@@ -144,8 +144,8 @@ theorem upsert_row_cases (i : Upsert) (ps : Env) (r r' : SRow) (sets : List (Col
   · simp [hc] at h; exact Or.inl h.symm
 
 /-- The conflict arm of the regenerated `WriteCas` upsert. -/
-def wcasConflictSets : List (Col × E) := match Collection_WriteCas_INSERT_0.conflict with | some p => p.1 | none => []
-def wcasConflictCond : E := match Collection_WriteCas_INSERT_0.conflict with | some p => p.2 | none => .lit .null
+def wcasConflictSets : List (Col × E) := match ups_cas_collection_exp_isJSON_key_revSeqNo_tombstone_value__set_cas_exp_isJSON_revSeqNo_tombstone_value_xattrsN__if_tombstoneIs1.conflict with | some p => p.1 | none => []
+def wcasConflictCond : E := match ups_cas_collection_exp_isJSON_key_revSeqNo_tombstone_value__set_cas_exp_isJSON_revSeqNo_tombstone_value_xattrsN__if_tombstoneIs1.conflict with | some p => p.2 | none => .lit .null
 
 /-- Every `WriteCas` statement, applied, leaves a coherent row, provided the Go code passes `raw == nil` for the tombstone flag. -/
 theorem sql_wcas_keeps_coherence (o : WOpts) (cas : Nat) (wasTomb : Bool) (ps : Env) (cid : Nat) (k : String) (r : Row)
@@ -158,26 +158,26 @@ theorem sql_wcas_keeps_coherence (o : WOpts) (cas : Nat) (wasTomb : Bool) (ps : 
   · -- append
     rcases update_row_cases _ _ _ _ h with rfl | ⟨hc, rfl⟩
     · exact hold
-    · have hnn := truthy_conjuncts ps (enc cid k r) _ hc (.notNull (.col .value)) (by simp [Collection_WriteCas_UPDATE_0, E.conjuncts])
+    · have hnn := truthy_conjuncts ps (enc cid k r) _ hc (.notNull (.col .value)) (by simp [upd_cas_exp_isJSON_revSeqNo_tombstone_value_xattrs__by_cas_collection_key_valueSet, E.conjuncts])
       cases val with
-      | none => simp [Collection_WriteCas_UPDATE_0, applySets, SRow.set, SRow.get, E.eval, coherent, hv, ht, encV, ofBool, SV.asText]
+      | none => simp [upd_cas_exp_isJSON_revSeqNo_tombstone_value_xattrs__by_cas_collection_key_valueSet, applySets, SRow.set, SRow.get, E.eval, coherent, hv, ht, encV, ofBool, SV.asText]
       | some b =>
         cases hvv : (enc cid k r).value with
         | null => simp [E.eval, SRow.get, hvv, ofBool, SV.truthy] at hnn
-        | int m => simp [Collection_WriteCas_UPDATE_0, applySets, SRow.set, SRow.get, E.eval, coherent, hv, ht, encV, ofBool, SV.asText, hvv]
-        | text t => simp [Collection_WriteCas_UPDATE_0, applySets, SRow.set, SRow.get, E.eval, coherent, hv, ht, encV, ofBool, SV.asText, hvv]
+        | int m => simp [upd_cas_exp_isJSON_revSeqNo_tombstone_value_xattrs__by_cas_collection_key_valueSet, applySets, SRow.set, SRow.get, E.eval, coherent, hv, ht, encV, ofBool, SV.asText, hvv]
+        | text t => simp [upd_cas_exp_isJSON_revSeqNo_tombstone_value_xattrs__by_cas_collection_key_valueSet, applySets, SRow.set, SRow.get, E.eval, coherent, hv, ht, encV, ofBool, SV.asText, hvv]
   · split at h
     · -- insert-style
       split at h
-      · rcases upsert_row_cases _ ps (enc cid k r) r' wcasConflictSets (.and wcasConflictCond Collection_WriteCas_AND_0) rfl h with rfl | ⟨_, rfl⟩
+      · rcases upsert_row_cases _ ps (enc cid k r) r' wcasConflictSets (.and wcasConflictCond frag_and_cas) rfl h with rfl | ⟨_, rfl⟩
         · exact hold
-        · cases val <;> simp [wcasConflictSets, Collection_WriteCas_INSERT_0, applySets, SRow.set, SRow.get, E.eval, coherent, hv, ht, encV, ofBool]
+        · cases val <;> simp [wcasConflictSets, ups_cas_collection_exp_isJSON_key_revSeqNo_tombstone_value__set_cas_exp_isJSON_revSeqNo_tombstone_value_xattrsN__if_tombstoneIs1, applySets, SRow.set, SRow.get, E.eval, coherent, hv, ht, encV, ofBool]
       · rcases upsert_row_cases _ ps (enc cid k r) r' wcasConflictSets wcasConflictCond rfl h with rfl | ⟨_, rfl⟩
         · exact hold
-        · cases val <;> simp [wcasConflictSets, Collection_WriteCas_INSERT_0, applySets, SRow.set, SRow.get, E.eval, coherent, hv, ht, encV, ofBool]
+        · cases val <;> simp [wcasConflictSets, ups_cas_collection_exp_isJSON_key_revSeqNo_tombstone_value__set_cas_exp_isJSON_revSeqNo_tombstone_value_xattrsN__if_tombstoneIs1, applySets, SRow.set, SRow.get, E.eval, coherent, hv, ht, encV, ofBool]
     · -- regular update
       rcases update_row_cases _ _ _ _ h with rfl | ⟨_, rfl⟩
       · exact hold
-      · cases val <;> simp [Collection_WriteCas_UPDATE_1, applySets, SRow.set, SRow.get, E.eval, coherent, hv, ht, encV, ofBool]
+      · cases val <;> simp [upd_cas_exp_isJSON_revSeqNo_tombstone_value_xattrs__by_cas_collection_key, applySets, SRow.set, SRow.get, E.eval, coherent, hv, ht, encV, ofBool]
 
 end Rosmar.Gen.Sql
